@@ -23,7 +23,7 @@ class NameMap:
 
     def __init__(self, kind, ne):
         self.kind = kind
-        self.names = core.naming(kind, max(ne, 12))
+        self.names = core.naming(kind, max(ne, 20))
         self.ne = ne
         self.rev = {str(v): k for k, v in self.names.items() if k <= ne}
 
